@@ -3,32 +3,573 @@ From Coq Require Import List ZArith String Bool Lia.
 From Plumpy Require Import Val PortModel PortSpec.
 Import ListNotations.
 
+(* ---- mutual induction on port / ports ---- *)
+Scheme port_mut_ind := Induction for port Sort Prop
+  with ports_mut_ind := Induction for ports Sort Prop.
+Combined Scheme port_ports_mutind from port_mut_ind, ports_mut_ind.
+
+(* ---- every declared default value (at any depth) is well-formed Python data ---- *)
+Definition wf_dflt (d : dflt) : bool :=
+  match dflt_value d with Some v => wf_val v | None => true end.
+
+Fixpoint wf_defaults_port (p : port) : bool :=
+  match p with
+  | PLeaf a => wf_dflt (l_default a)
+  | PNs a ps => wf_dflt (n_default a) && wf_defaults ps
+  end
+with wf_defaults (ps : ports) : bool :=
+  match ps with
+  | PNil => true
+  | PCons _ p rest => wf_defaults_port p && wf_defaults rest
+  end.
+
+(* ---- wf_val on mappings, without the nested fix ---- *)
+Definition wfk (m : list (string * val)) : bool :=
+  keys_unique m && forallb (fun kv => wf_val (snd kv)) m.
+
+Lemma wf_val_dict : forall m, wf_val (VDict m) = wfk m.
+Proof.
+  intros m. unfold wfk. cbn [wf_val]. f_equal.
+  induction m as [|[k x] m IH]; [reflexivity|].
+  cbn [forallb snd]. rewrite <- IH. reflexivity.
+Qed.
+
+Lemma wf_val_frozen : forall m, wf_val (VFrozen m) = wfk m.
+Proof. intros m. rewrite <- wf_val_dict. reflexivity. Qed.
+
+Lemma wf_kvs_wfk : forall m, wf_kvs m = wfk m.
+Proof. intros m. unfold wf_kvs. apply wf_val_dict. Qed.
+
+(* ---- association lists ---- *)
+Lemma alist_get_del_other : forall {A} k n (m : list (string * A)),
+  String.eqb k n = false -> alist_get k (alist_del n m) = alist_get k m.
+Proof.
+  intros A k n m Hkn. induction m as [|[k' x] m IH]; [reflexivity|].
+  cbn [alist_del alist_get].
+  destruct (String.eqb n k') eqn:Enk.
+  - apply String.eqb_eq in Enk. subst k'. rewrite Hkn. reflexivity.
+  - cbn [alist_get]. rewrite IH. reflexivity.
+Qed.
+
+Lemma alist_get_del_none : forall {A} k n (m : list (string * A)),
+  alist_get k m = None -> alist_get k (alist_del n m) = None.
+Proof.
+  intros A k n m. induction m as [|[k' x] m IH]; intros H; [reflexivity|].
+  cbn [alist_get] in H. cbn [alist_del].
+  destruct (String.eqb k k') eqn:Ekk; [discriminate|].
+  destruct (String.eqb n k'); [exact H|].
+  cbn [alist_get]. rewrite Ekk. apply IH, H.
+Qed.
+
+Lemma alist_get_set_same : forall {A} n (v : A) m, alist_get n (alist_set n v m) = Some v.
+Proof.
+  intros A n v m. induction m as [|[k' x] m IH].
+  - cbn. rewrite String.eqb_refl. reflexivity.
+  - cbn [alist_set]. destruct (String.eqb n k') eqn:E.
+    + cbn [alist_get]. rewrite String.eqb_refl. reflexivity.
+    + cbn [alist_get]. rewrite E. exact IH.
+Qed.
+
+Lemma alist_get_set_other : forall {A} k n (v : A) m,
+  String.eqb k n = false -> alist_get k (alist_set n v m) = alist_get k m.
+Proof.
+  intros A k n v m Hkn. induction m as [|[k' x] m IH].
+  - cbn. rewrite Hkn. reflexivity.
+  - cbn [alist_set]. destruct (String.eqb n k') eqn:E.
+    + apply String.eqb_eq in E. subst k'. cbn [alist_get]. rewrite Hkn. reflexivity.
+    + cbn [alist_get]. rewrite IH. reflexivity.
+Qed.
+
+Lemma keys_unique_del : forall {A} n (m : list (string * A)),
+  keys_unique m = true -> keys_unique (alist_del n m) = true.
+Proof.
+  intros A n m. induction m as [|[k x] m IH]; intros H; [reflexivity|].
+  cbn [keys_unique] in H. apply andb_true_iff in H. destruct H as [Hk Hm].
+  cbn [alist_del]. destruct (String.eqb n k); [exact Hm|].
+  cbn [keys_unique]. rewrite (IH Hm), andb_true_r.
+  unfold alist_mem in *. destruct (alist_get k m) eqn:E; [discriminate|].
+  rewrite (alist_get_del_none _ _ _ E). reflexivity.
+Qed.
+
+Lemma keys_unique_set : forall {A} n (v : A) (m : list (string * A)),
+  keys_unique m = true -> keys_unique (alist_set n v m) = true.
+Proof.
+  intros A n v m. induction m as [|[k x] m IH]; intros H; [reflexivity|].
+  cbn [keys_unique] in H. apply andb_true_iff in H. destruct H as [Hk Hm].
+  cbn [alist_set]. destruct (String.eqb n k) eqn:E.
+  - apply String.eqb_eq in E. subst k. cbn [keys_unique]. rewrite Hk, Hm. reflexivity.
+  - cbn [keys_unique]. rewrite (IH Hm), andb_true_r.
+    unfold alist_mem in *. rewrite alist_get_set_other; [exact Hk|].
+    rewrite String.eqb_sym. exact E.
+Qed.
+
+Lemma forallb_del : forall {A} (f : string * A -> bool) n m,
+  forallb f m = true -> forallb f (alist_del n m) = true.
+Proof.
+  intros A f n m. induction m as [|[k x] m IH]; intros H; [reflexivity|].
+  cbn [forallb] in H. apply andb_true_iff in H. destruct H as [Hx Hm].
+  cbn [alist_del]. destruct (String.eqb n k); [exact Hm|].
+  cbn [forallb]. rewrite Hx, (IH Hm). reflexivity.
+Qed.
+
+Lemma forallb_set : forall {A} (Q : A -> bool) n v (m : list (string * A)),
+  Q v = true -> forallb (fun kv => Q (snd kv)) m = true ->
+  forallb (fun kv => Q (snd kv)) (alist_set n v m) = true.
+Proof.
+  intros A Q n v m Hv. induction m as [|[k x] m IH]; intros H.
+  - cbn. rewrite Hv. reflexivity.
+  - cbn [forallb] in H. apply andb_true_iff in H. destruct H as [Hx Hm].
+    cbn [alist_set]. destruct (String.eqb n k).
+    + cbn [forallb snd]. rewrite Hv, Hm. reflexivity.
+    + cbn [forallb]. rewrite Hx, (IH Hm). reflexivity.
+Qed.
+
+Lemma forallb_get : forall {A} (Q : A -> bool) n v (m : list (string * A)),
+  forallb (fun kv => Q (snd kv)) m = true -> alist_get n m = Some v -> Q v = true.
+Proof.
+  intros A Q n v m. induction m as [|[k x] m IH]; intros H Hg; [discriminate|].
+  cbn [forallb snd] in H. apply andb_true_iff in H. destruct H as [Hx Hm].
+  cbn [alist_get] in Hg. destruct (String.eqb n k).
+  - injection Hg as <-. exact Hx.
+  - exact (IH Hm Hg).
+Qed.
+
+Lemma wfk_nil : wfk [] = true.
+Proof. reflexivity. Qed.
+
+Lemma wfk_del : forall n m, wfk m = true -> wfk (alist_del n m) = true.
+Proof.
+  intros n m H. unfold wfk in *. apply andb_true_iff in H. destruct H as [Hk Hf].
+  rewrite (keys_unique_del n m Hk), (forallb_del _ n m Hf). reflexivity.
+Qed.
+
+Lemma wfk_set : forall n v m, wf_val v = true -> wfk m = true -> wfk (alist_set n v m) = true.
+Proof.
+  intros n v m Hv H. unfold wfk in *. apply andb_true_iff in H. destruct H as [Hk Hf].
+  rewrite (keys_unique_set n v m Hk), (forallb_set wf_val n v m Hv Hf). reflexivity.
+Qed.
+
+Lemma wfk_get : forall n v m, wfk m = true -> alist_get n m = Some v -> wf_val v = true.
+Proof.
+  intros n v m H Hg. unfold wfk in H. apply andb_true_iff in H. destruct H as [_ Hf].
+  exact (forallb_get wf_val n v m Hf Hg).
+Qed.
+
+Lemma filter_true_id : forall {A} (f : A -> bool) l, (forall x, f x = true) -> filter f l = l.
+Proof.
+  intros A f l Hf. induction l as [|x l IH]; [reflexivity|].
+  cbn [filter]. rewrite Hf, IH. reflexivity.
+Qed.
+
+Lemma filter_absent : forall {A} (f : string * A -> bool) n (m : list (string * A)),
+  alist_get n m = None ->
+  filter f m = filter (fun kv => negb (String.eqb (fst kv) n) && f kv) m.
+Proof.
+  intros A f n m. induction m as [|[k x] m IH]; intros H; [reflexivity|].
+  cbn [alist_get] in H. destruct (String.eqb n k) eqn:E; [discriminate|].
+  cbn [filter fst]. rewrite String.eqb_sym, E. cbn [negb andb].
+  rewrite (IH H). reflexivity.
+Qed.
+
+Lemma filter_del : forall {A} (f : string * A -> bool) n (m : list (string * A)),
+  keys_unique m = true ->
+  filter f (alist_del n m) = filter (fun kv => negb (String.eqb (fst kv) n) && f kv) m.
+Proof.
+  intros A f n m. induction m as [|[k x] m IH]; intros H; [reflexivity|].
+  cbn [keys_unique] in H. apply andb_true_iff in H. destruct H as [Hk Hm].
+  cbn [alist_del]. destruct (String.eqb n k) eqn:E.
+  - cbn [filter fst]. rewrite String.eqb_sym, E. cbn [negb andb].
+    apply String.eqb_eq in E. subst k. apply filter_absent.
+    unfold alist_mem in Hk. destruct (alist_get n m); [discriminate|reflexivity].
+  - cbn [filter fst]. rewrite (String.eqb_sym k n), E. cbn [negb andb].
+    rewrite (IH Hm). reflexivity.
+Qed.
+
+(* ---- the _ports dict ---- *)
+Lemma ports_get_none : forall n ps,
+  existsb (String.eqb n) (ports_names ps) = false -> ports_get n ps = None.
+Proof.
+  intros n ps. induction ps as [|n' p rest IH]; intros H; [reflexivity|].
+  cbn [ports_names existsb] in H. apply orb_false_iff in H. destruct H as [Hn Hr].
+  cbn [ports_get]. rewrite Hn. exact (IH Hr).
+Qed.
+
+Lemma names_unique_cons : forall n p rest,
+  names_unique (PCons n p rest) = true ->
+  existsb (String.eqb n) (ports_names rest) = false /\ names_unique rest = true.
+Proof.
+  intros n p rest H. cbn [names_unique] in H. apply andb_true_iff in H. destruct H as [Hn Hr].
+  split; [|exact Hr]. destruct (existsb (String.eqb n) (ports_names rest)); [discriminate|reflexivity].
+Qed.
+
+Lemma wf_port_ns : forall a ps, wf_port (PNs a ps) = names_unique ps && wf_ports ps.
+Proof. reflexivity. Qed.
+
+Lemma wf_ports_cons : forall n p rest, wf_ports (PCons n p rest) = wf_port p && wf_ports rest.
+Proof. reflexivity. Qed.
+
+Lemma wf_defaults_port_ns : forall a ps,
+  wf_defaults_port (PNs a ps) = wf_dflt (n_default a) && wf_defaults ps.
+Proof. reflexivity. Qed.
+
+Lemma wf_defaults_cons : forall n p rest,
+  wf_defaults (PCons n p rest) = wf_defaults_port p && wf_defaults rest.
+Proof. reflexivity. Qed.
+
+(* ================= completion: pre_process, one declared name at a time ================= *)
+
+(* what inputs[n] becomes for the declared port p at name n *)
+Definition entry_of (n : string) (p : port) (m : list (string * val)) : option (exn + val) :=
+  match p with
+  | PLeaf a =>
+      match alist_get n m with
+      | Some v => Some (inr v)
+      | None => option_map inr (dflt_value (l_default a))
+      end
+  | PNs a sub => expected_ns_entry a sub (alist_get n m)
+  end.
+
+Lemma pre_process_cons : forall n p rest m,
+  pre_process (PCons n p rest) m =
+  match entry_of n p m with
+  | None => pre_process rest m
+  | Some (inl e) => inl e
+  | Some (inr v) => pre_process rest (alist_set n v m)
+  end.
+Proof.
+  intros n p rest m. cbn [pre_process]. unfold entry_of, expected_ns_entry.
+  destruct (alist_get n m) as [v|]; destruct p as [a|a sub].
+  - reflexivity.
+  - destruct v; try reflexivity. cbn [freeze]. destruct (pre_process sub kvs); reflexivity.
+  - destruct (dflt_value (l_default a)); reflexivity.
+  - destruct (negb (n_populate a)); [reflexivity|].
+    destruct (dflt_value (n_default a)) as [v|].
+    + destruct v; try reflexivity. destruct (pre_process sub kvs); reflexivity.
+    + destruct (ports_empty sub); [reflexivity|]. destruct (pre_process sub []); reflexivity.
+Qed.
+
+Lemma expected_entry_head : forall n p rest m,
+  expected_entry (PCons n p rest) m n = entry_of n p m.
+Proof.
+  intros n p rest m. unfold expected_entry. cbn [ports_get]. rewrite String.eqb_refl.
+  destruct p; reflexivity.
+Qed.
+
+Lemma expected_entry_tail : forall n p rest m k,
+  String.eqb k n = false -> expected_entry (PCons n p rest) m k = expected_entry rest m k.
+Proof.
+  intros n p rest m k H. unfold expected_entry. cbn [ports_get]. rewrite H. reflexivity.
+Qed.
+
+Lemma expected_entry_ext : forall ps m m' k,
+  alist_get k m' = alist_get k m -> expected_entry ps m' k = expected_entry ps m k.
+Proof. intros ps m m' k H. unfold expected_entry. rewrite H. reflexivity. Qed.
+
+Lemma expected_entry_undeclared : forall ps m k,
+  existsb (String.eqb k) (ports_names ps) = false ->
+  expected_entry ps m k = option_map inr (alist_get k m).
+Proof.
+  intros ps m k H. unfold expected_entry. rewrite (ports_get_none _ _ H). reflexivity.
+Qed.
+
+Lemma entry_of_none : forall n p m, entry_of n p m = None -> alist_get n m = None.
+Proof.
+  intros n p m H. unfold entry_of, expected_ns_entry in H.
+  destruct (alist_get n m) as [v|]; [|reflexivity].
+  destruct p; [discriminate|]. destruct v; discriminate.
+Qed.
+
+(* a namespace entry is always a frozen, recursively completed mapping; its source is what was
+   supplied, the namespace default, or nothing *)
+Lemma entry_ns_inv : forall a sub g v,
+  expected_ns_entry a sub g = Some (inr v) ->
+  exists kvs r', pre_process sub kvs = inr r' /\ v = VFrozen r'
+    /\ (g = Some (VDict kvs) \/ dflt_value (n_default a) = Some (VDict kvs) \/ kvs = []).
+Proof.
+  intros a sub g v H. unfold expected_ns_entry in H.
+  assert (Hfz : forall kvs, Some (freeze (pre_process sub kvs)) = Some (inr v) ->
+                exists r', pre_process sub kvs = inr r' /\ v = VFrozen r').
+  { intros kvs Hf. destruct (pre_process sub kvs) as [e|r']; cbn [freeze] in Hf; [discriminate|].
+    injection Hf as <-. exists r'. split; reflexivity. }
+  destruct g as [gv|].
+  - destruct gv; try discriminate. destruct (Hfz _ H) as [r' [Hp Hv]].
+    exists kvs, r'. repeat split; try assumption. left. reflexivity.
+  - destruct (negb (n_populate a)); [discriminate|].
+    destruct (dflt_value (n_default a)) as [dv|] eqn:Ed.
+    + destruct dv; try discriminate. destruct (Hfz _ H) as [r' [Hp Hv]].
+      exists kvs, r'. repeat split; try assumption. right. left. reflexivity.
+    + destruct (ports_empty sub); [discriminate|]. destruct (Hfz _ H) as [r' [Hp Hv]].
+      exists [], r'. repeat split; try assumption. right. right. reflexivity.
+Qed.
+
+(* (2) completion with exactly the declared defaults, entry by entry *)
+Theorem pre_process_entries : forall ps m r,
+  names_unique ps = true -> pre_process ps m = inr r ->
+  forall n, option_map (@inr exn val) (alist_get n r) = expected_entry ps m n.
+Proof.
+  intros ps. induction ps as [|n p rest IH]; intros m r Hnu Hpp k.
+  - cbn [pre_process] in Hpp. injection Hpp as <-. reflexivity.
+  - apply names_unique_cons in Hnu. destruct Hnu as [Hn Hnu].
+    rewrite pre_process_cons in Hpp.
+    destruct (String.eqb k n) eqn:Ekn.
+    + apply String.eqb_eq in Ekn. subst k. rewrite expected_entry_head.
+      destruct (entry_of n p m) as [[e|v]|] eqn:E.
+      * discriminate.
+      * rewrite (IH _ _ Hnu Hpp n), (expected_entry_undeclared _ _ _ Hn), alist_get_set_same.
+        reflexivity.
+      * rewrite (IH _ _ Hnu Hpp n), (expected_entry_undeclared _ _ _ Hn), (entry_of_none _ _ _ E).
+        reflexivity.
+    + rewrite (expected_entry_tail _ _ _ _ _ Ekn).
+      destruct (entry_of n p m) as [[e|v]|] eqn:E.
+      * discriminate.
+      * rewrite (IH _ _ Hnu Hpp k). apply expected_entry_ext. apply alist_get_set_other, Ekn.
+      * exact (IH _ _ Hnu Hpp k).
+Qed.
+
+(* (3) key-uniqueness (at every depth) is preserved *)
+Lemma pre_process_wfk_mut :
+  (forall p, wf_defaults_port p = true -> forall n m v,
+     wfk m = true -> entry_of n p m = Some (inr v) -> wf_val v = true)
+  /\ (forall ps, wf_defaults ps = true -> forall m r,
+        wfk m = true -> pre_process ps m = inr r -> wfk r = true).
+Proof.
+  apply port_ports_mutind.
+  - intros a Hd n m v Hm He. unfold entry_of in He.
+    destruct (alist_get n m) as [x|] eqn:Eg.
+    + injection He as <-. exact (wfk_get _ _ _ Hm Eg).
+    + cbn [wf_defaults_port] in Hd. unfold wf_dflt in Hd.
+      destruct (dflt_value (l_default a)) as [d|]; [|discriminate].
+      cbn [option_map] in He. injection He as <-. exact Hd.
+  - intros a sub IHsub Hd n m v Hm He. unfold entry_of in He.
+    rewrite wf_defaults_port_ns in Hd. apply andb_true_iff in Hd. destruct Hd as [Hda Hds].
+    apply entry_ns_inv in He. destruct He as [kvs [r' [Hp [Hv Hsrc]]]].
+    subst v. rewrite wf_val_frozen. apply (IHsub Hds kvs r'); [|exact Hp].
+    destruct Hsrc as [Hg | [Hdf | Hnil]].
+    + rewrite <- wf_val_dict. exact (wfk_get _ _ _ Hm Hg).
+    + unfold wf_dflt in Hda. rewrite Hdf in Hda. rewrite <- wf_val_dict. exact Hda.
+    + subst kvs. reflexivity.
+  - intros _ m r Hm Hpp. cbn [pre_process] in Hpp. injection Hpp as <-. exact Hm.
+  - intros n p IHp rest IHrest Hd m r Hm Hpp.
+    rewrite wf_defaults_cons in Hd. apply andb_true_iff in Hd. destruct Hd as [Hdp Hdr].
+    rewrite pre_process_cons in Hpp.
+    destruct (entry_of n p m) as [[e|v]|] eqn:E.
+    + discriminate.
+    + apply (IHrest Hdr (alist_set n v m) r); [|exact Hpp]. apply wfk_set; [|exact Hm].
+      exact (IHp Hdp n m v Hm E).
+    + exact (IHrest Hdr _ r Hm Hpp).
+Qed.
+
+Theorem pre_process_wf : forall ps m r,
+  wf_defaults ps = true -> wf_kvs m = true -> pre_process ps m = inr r -> wf_kvs r = true.
+Proof.
+  intros ps m r Hd Hm Hpp. rewrite wf_kvs_wfk in *.
+  exact (proj2 pre_process_wfk_mut ps Hd m r Hm Hpp).
+Qed.
+
+(* (4) read-only mappings at every declared namespace level *)
+Lemma frozen_levels_ns : forall a ps v,
+  frozen_levels (PNs a ps) v = match v with VFrozen m => frozen_levels_ports ps m | _ => false end.
+Proof. intros a ps v. destruct v; reflexivity. Qed.
+
+Lemma frozen_levels_ports_cons : forall n p rest m,
+  frozen_levels_ports (PCons n p rest) m =
+  match p, alist_get n m with
+  | PNs _ _, Some v => frozen_levels p v
+  | _, _ => true
+  end && frozen_levels_ports rest m.
+Proof. reflexivity. Qed.
+
+Lemma pre_process_frozen_mut :
+  (forall p, wf_port p = true -> forall a sub, p = PNs a sub -> forall kvs r',
+     pre_process sub kvs = inr r' -> frozen_levels p (VFrozen r') = true)
+  /\ (forall ps, names_unique ps = true -> wf_ports ps = true -> forall m r,
+        pre_process ps m = inr r -> frozen_levels_ports ps r = true).
+Proof.
+  apply port_ports_mutind.
+  - intros a _ a' sub Heq. discriminate.
+  - intros a ps IHps Hwf a' sub Heq kvs r' Hp. injection Heq as <- <-.
+    rewrite wf_port_ns in Hwf. apply andb_true_iff in Hwf. destruct Hwf as [Hnu Hwf].
+    rewrite frozen_levels_ns. exact (IHps Hnu Hwf kvs r' Hp).
+  - intros _ _ m r _. reflexivity.
+  - intros n p IHp rest IHrest Hnu Hwf m r Hpp.
+    pose proof (pre_process_entries _ _ _ Hnu Hpp n) as Hent.
+    rewrite expected_entry_head in Hent.
+    apply names_unique_cons in Hnu. destruct Hnu as [Hn Hnu].
+    rewrite wf_ports_cons in Hwf. apply andb_true_iff in Hwf. destruct Hwf as [Hwfp Hwfr].
+    rewrite pre_process_cons in Hpp.
+    rewrite frozen_levels_ports_cons. apply andb_true_iff. split.
+    + destruct p as [la|a sub]; [reflexivity|].
+      destruct (alist_get n r) as [v|]; [|reflexivity].
+      cbn [option_map] in Hent. symmetry in Hent. unfold entry_of in Hent.
+      apply entry_ns_inv in Hent. destruct Hent as [kvs [r' [Hp [Hv _]]]]. subst v.
+      exact (IHp Hwfp a sub eq_refl kvs r' Hp).
+    + destruct (entry_of n p m) as [[e|v]|].
+      * discriminate.
+      * exact (IHrest Hnu Hwfr _ r Hpp).
+      * exact (IHrest Hnu Hwfr _ r Hpp).
+Qed.
+
+Theorem pre_process_frozen : forall ps m r,
+  names_unique ps = true -> wf_ports ps = true -> pre_process ps m = inr r ->
+  frozen_levels_ports ps r = true.
+Proof.
+  intros ps m r Hnu Hwf Hpp. exact (proj2 pre_process_frozen_mut ps Hnu Hwf m r Hpp).
+Qed.
+
 Section C11.
   Variable veval : vid -> val -> bool.
 
-  (* TO BE PROVED.  Hypotheses may be *weakened* or replaced by equivalent/weaker well-formedness
-     conditions you define; never strengthen silently — report every hypothesis you had to add.
+  (* ---- unfolding lemmas ---- *)
+  Lemma valid_port_leaf : forall a v, valid_port veval (PLeaf a) v = valid_leaf veval a v.
+  Proof. reflexivity. Qed.
 
-  (1) the algorithm (pops each declared name, clones, validates the rest dynamically) decides the
-      declarative reading:
+  Lemma valid_port_ns : forall a ps v,
+    valid_port veval (PNs a ps) v =
+    match mapping_items (if truthy v then v else VDict []) with
+    | None => false
+    | Some m =>
+        if is_nil m && negb (n_required a) then true
+        else match valid_ports veval ps m with
+             | None => false
+             | Some rest => valid_dynamic a rest && negb (run_validator veval (n_validator a) (VDict m))
+             end
+    end.
+  Proof. reflexivity. Qed.
+
+  Lemma valid_ports_cons : forall n p rest m,
+    valid_ports veval (PCons n p rest) m =
+    if valid_port veval p (match alist_get n m with Some x => x | None => UNSPEC end)
+    then valid_ports veval rest (alist_del n m) else None.
+  Proof. reflexivity. Qed.
+
+  Lemma conforms_ns : forall a ps x,
+    conforms veval (PNs a ps) x =
+    match mapping_items (match x with Some v => if truthy v then v else VDict [] | None => VDict [] end) with
+    | None => false
+    | Some m =>
+        (negb (n_required a) && is_nil m)
+        || (conforms_all veval ps m
+            && (is_nil (undeclared_items ps m) || n_dynamic a)
+            && match n_vt a with
+               | None => true
+               | Some ts => forallb (fun kv => dyn_value_ok (n_dynamic a) ts (snd kv)) (undeclared_items ps m)
+               end
+            && negb (run_validator veval (n_validator a) (VDict m)))
+    end.
+  Proof. reflexivity. Qed.
+
+  Lemma conforms_all_cons : forall n p rest m,
+    conforms_all veval (PCons n p rest) m = conforms veval p (alist_get n m) && conforms_all veval rest m.
+  Proof. reflexivity. Qed.
+
+  (* an absent value and UNSPECIFIED are the same thing to a port *)
+  Lemma conforms_none_unspec : forall p, conforms veval p None = conforms veval p (Some UNSPEC).
+  Proof. intros p. destruct p; reflexivity. Qed.
+
+  Lemma valid_dynamic_spec : forall a rest,
+    valid_dynamic a rest =
+    (is_nil rest || n_dynamic a)
+    && match n_vt a with
+       | None => true
+       | Some ts => forallb (fun kv => dyn_value_ok (n_dynamic a) ts (snd kv)) rest
+       end.
+  Proof.
+    intros a rest. unfold valid_dynamic. destruct rest; destruct (n_dynamic a); reflexivity.
+  Qed.
+
+  Lemma valid_leaf_spec : forall a v,
+    valid_leaf veval a v = conforms veval (PLeaf a) (Some v).
+  Proof.
+    intros a v. cbn [conforms]. unfold valid_leaf.
+    destruct (is_unspec v); destruct (l_required a); cbn [andb negb]; try reflexivity.
+    - destruct (l_vt a) as [ts|]; [|reflexivity]. destruct (isinstance_any v ts); reflexivity.
+    - destruct (l_vt a) as [ts|]; [|reflexivity]. destruct (isinstance_any v ts); reflexivity.
+  Qed.
+
+  (* popping a name that the remaining ports do not declare does not change what they see *)
+  Lemma conforms_all_del : forall n rest m,
+    existsb (String.eqb n) (ports_names rest) = false ->
+    conforms_all veval rest (alist_del n m) = conforms_all veval rest m.
+  Proof.
+    intros n rest m. induction rest as [|n' p' rest IH]; intros H; [reflexivity|].
+    cbn [ports_names existsb] in H. apply orb_false_iff in H. destruct H as [Hn Hr].
+    rewrite !conforms_all_cons, (IH Hr), alist_get_del_other; [reflexivity|].
+    rewrite String.eqb_sym. exact Hn.
+  Qed.
+
+  (* what remains after all pops is exactly what no port declares *)
+  Lemma undeclared_del : forall n p rest m,
+    keys_unique m = true ->
+    undeclared_items rest (alist_del n m) = undeclared_items (PCons n p rest) m.
+  Proof.
+    intros n p rest m Hk. unfold undeclared_items. rewrite (filter_del _ n m Hk).
+    apply filter_ext. intros [k x]. unfold declared. cbn [fst ports_get].
+    destruct (String.eqb k n); reflexivity.
+  Qed.
+
+  Lemma valid_conforms_mut :
+    (forall p, wf_port p = true -> forall v, wf_val v = true ->
+       valid_port veval p v = conforms veval p (Some v))
+    /\ (forall ps, names_unique ps = true -> wf_ports ps = true -> forall m, wfk m = true ->
+          valid_ports veval ps m =
+          if conforms_all veval ps m then Some (undeclared_items ps m) else None).
+  Proof.
+    apply port_ports_mutind.
+    - intros a _ v _. rewrite valid_port_leaf. apply valid_leaf_spec.
+    - intros a ps IHps Hwf v Hv.
+      rewrite wf_port_ns in Hwf. apply andb_true_iff in Hwf. destruct Hwf as [Hnu Hwf].
+      rewrite valid_port_ns, conforms_ns.
+      assert (Hpv : wf_val (if truthy v then v else VDict []) = true).
+      { destruct (truthy v); [exact Hv|reflexivity]. }
+      remember (if truthy v then v else VDict []) as pv eqn:Epv. clear Epv.
+      assert (Hgoal : forall m, wfk m = true ->
+        (if is_nil m && negb (n_required a) then true
+         else match valid_ports veval ps m with
+              | None => false
+              | Some rest => valid_dynamic a rest && negb (run_validator veval (n_validator a) (VDict m))
+              end) =
+        (negb (n_required a) && is_nil m)
+        || (conforms_all veval ps m
+            && (is_nil (undeclared_items ps m) || n_dynamic a)
+            && match n_vt a with
+               | None => true
+               | Some ts => forallb (fun kv => dyn_value_ok (n_dynamic a) ts (snd kv)) (undeclared_items ps m)
+               end
+            && negb (run_validator veval (n_validator a) (VDict m)))).
+      { intros m Hm. rewrite (IHps Hnu Hwf m Hm).
+        destruct (conforms_all veval ps m).
+        - rewrite valid_dynamic_spec.
+          destruct (is_nil m); destruct (n_required a); cbn [andb negb orb]; reflexivity.
+        - destruct (is_nil m); destruct (n_required a); reflexivity. }
+      destruct pv; cbn [mapping_items]; try reflexivity.
+      + apply Hgoal. rewrite <- wf_val_dict. exact Hpv.
+      + apply Hgoal. rewrite <- wf_val_frozen. exact Hpv.
+    - intros _ _ m _. cbn [valid_ports conforms_all]. unfold undeclared_items.
+      rewrite filter_true_id; reflexivity.
+    - intros n p IHp rest IHrest Hnu Hwf m Hm.
+      apply names_unique_cons in Hnu. destruct Hnu as [Hn Hnu].
+      rewrite wf_ports_cons in Hwf. apply andb_true_iff in Hwf. destruct Hwf as [Hwfp Hwfr].
+      rewrite valid_ports_cons, conforms_all_cons.
+      assert (Hv : wf_val (match alist_get n m with Some x => x | None => UNSPEC end) = true).
+      { destruct (alist_get n m) as [x|] eqn:Eg; [exact (wfk_get _ _ _ Hm Eg)|reflexivity]. }
+      rewrite (IHp Hwfp _ Hv).
+      assert (Hc : conforms veval p (Some (match alist_get n m with Some x => x | None => UNSPEC end))
+                   = conforms veval p (alist_get n m)).
+      { destruct (alist_get n m); [reflexivity|]. symmetry. apply conforms_none_unspec. }
+      rewrite Hc. destruct (conforms veval p (alist_get n m)); [|reflexivity].
+      rewrite (IHrest Hnu Hwfr _ (wfk_del n m Hm)), (conforms_all_del _ _ _ Hn).
+      cbn [andb]. destruct (conforms_all veval rest m); [|reflexivity].
+      f_equal. apply undeclared_del.
+      unfold wfk in Hm. apply andb_true_iff in Hm. exact (proj1 Hm).
+  Qed.
+
+  (* (1) the algorithm (pops each declared name, clones, validates the rest dynamically) decides
+     the declarative reading *)
   Theorem valid_port_conforms : forall p v,
     wf_port p = true -> wf_val v = true -> valid_port veval p v = conforms veval p (Some v).
+  Proof. intros p v Hp Hv. exact (proj1 valid_conforms_mut p Hp v Hv). Qed.
 
-  (2) completion with exactly the declared defaults, entry by entry:
-  Theorem pre_process_entries : forall ps m r,
-    names_unique ps = true -> pre_process ps m = inr r ->
-    forall n, option_map (@inr exn val) (alist_get n r) = expected_entry ps m n.
-
-  (3) key-uniqueness is preserved (so that (1) applies to the completed inputs).  [wf_defaults ps]
-      is to be defined by you: every declared default value (at any depth) satisfies wf_val.
-  Theorem pre_process_wf : forall ps m r,
-    wf_defaults ps = true -> wf_kvs m = true -> pre_process ps m = inr r -> wf_kvs r = true.
-
-  (4) read-only mappings at every declared namespace level:
-  Theorem pre_process_frozen : forall ps m r,
-    names_unique ps = true -> wf_ports ps = true -> pre_process ps m = inr r -> frozen_levels_ports ps r = true.
-
-  (5) construction succeeds exactly on conforming completed inputs, and yields them:
+  (* (5) construction succeeds exactly on conforming completed inputs, and yields them *)
   Theorem construct_accept_iff : forall spec raw parsed,
     wf_port spec = true -> wf_defaults_port spec = true ->
     wf_kvs (match raw with Some m => m | None => [] end) = true ->
@@ -37,5 +578,31 @@ Section C11.
        /\ pre_process ps (match raw with Some m => m | None => [] end) = inr r
        /\ parsed = VFrozen r
        /\ conforms veval spec (Some parsed) = true).
-  *)
+  Proof.
+    intros spec raw parsed Hwf Hd Hraw.
+    assert (Hvc : forall a ps r, spec = PNs a ps ->
+              pre_process ps (match raw with Some m => m | None => [] end) = inr r ->
+              valid_port veval spec (VFrozen r) = conforms veval spec (Some (VFrozen r))).
+    { intros a ps r Hs Hpp. apply valid_port_conforms; [exact Hwf|].
+      subst spec. rewrite wf_defaults_port_ns in Hd. apply andb_true_iff in Hd.
+      destruct Hd as [_ Hd]. change (wf_kvs r = true). exact (pre_process_wf _ _ _ Hd Hraw Hpp). }
+    split.
+    - intros Hc. destruct spec as [la|a ps]; [discriminate|].
+      unfold construct in Hc.
+      destruct (pre_process ps (match raw with Some m => m | None => [] end)) as [e|r] eqn:Hpp;
+        [discriminate|].
+      destruct (valid_port veval (PNs a ps) (VFrozen r)) eqn:Hv; [|discriminate].
+      injection Hc as <-. exists a, ps, r.
+      split; [reflexivity|]. split; [exact Hpp|]. split; [reflexivity|].
+      rewrite <- (Hvc a ps r eq_refl Hpp). exact Hv.
+    - intros [a [ps [r [Hs [Hpp [Hpa Hc]]]]]].
+      pose proof (Hvc a ps r Hs Hpp) as Hv. subst parsed. rewrite Hc in Hv.
+      subst spec. unfold construct. rewrite Hpp, Hv. reflexivity.
+  Qed.
 End C11.
+
+Print Assumptions valid_port_conforms.
+Print Assumptions pre_process_entries.
+Print Assumptions pre_process_wf.
+Print Assumptions pre_process_frozen.
+Print Assumptions construct_accept_iff.
